@@ -275,6 +275,71 @@ def _braced_escape_digits(pattern: str):
     return best
 
 
+def rule_s8(ctx):
+    """No hash value is persisted: str hashes are salted per process (PYTHONHASHSEED), so a hash that was computed once, stored in an attribute and pickled with the object is
+    wrong in the process that unpickles it (equal objects, different hashes: dict lookups and set membership silently miss).  A class whose __hash__ returns a stored
+    attribute must keep that attribute out of its pickled state (own __getstate__/__reduce__ that does not carry it)."""
+    n_hash = n_cached = 0
+    for rel in (LANG, "src/isla/derivation_tree.py", "src/isla/solver.py", "src/isla/trie.py", "src/isla/helpers.py"):
+        if not ctx.repo.exists(rel):
+            continue
+        m = ctx.repo.module(rel, "C17.S8")
+        for cls in [n for n in m.tree.body if isinstance(n, ast.ClassDef)]:
+            hf = next((n for n in cls.body if isinstance(n, ast.FunctionDef) and n.name == "__hash__"), None)
+            if hf is None:
+                continue
+            n_hash += 1
+            attrs = {r.value.attr for r in walk_local(hf) if isinstance(r, ast.Return) and isinstance(r.value, ast.Attribute) and isinstance(r.value.value, ast.Name) and r.value.value.id == "self"}
+            if not attrs:
+                continue
+            stores = [a for meth in cls.body if isinstance(meth, ast.FunctionDef) for a in walk_local(meth)
+                      if isinstance(a, ast.Assign) and any(isinstance(t, ast.Attribute) and isinstance(t.value, ast.Name) and t.value.id == "self" and t.attr in attrs for t in a.targets)
+                      and any(isinstance(x, ast.Call) and ((call_name(x) or "") == "hash" or "hash" in (call_name(x) or "").lower()) for x in ast.walk(a.value))]
+            if not stores:
+                continue
+            n_cached += 1
+            own_state = [n.name for n in cls.body if isinstance(n, ast.FunctionDef) and n.name in ("__getstate__", "__reduce__", "__reduce_ex__")]
+            c = f"{rel}:{cls.name}"
+            if own_state:
+                gs = next(n for n in cls.body if isinstance(n, ast.FunctionDef) and n.name == own_state[0])
+                carries = any(isinstance(x, ast.Attribute) and x.attr in attrs for x in ast.walk(gs)) or any(isinstance(x, ast.Attribute) and x.attr == "__dict__" for x in ast.walk(gs))
+                ctx.check(not carries, "S8-no-persisted-hash", c, f"cached hash {sorted(attrs)} kept out of the pickled state", site(gs),
+                          f"{own_state[0]} carries the cached hash {sorted(attrs)} (or the whole __dict__)", f"{own_state[0]} builds the state without it")
+            else:
+                ctx.viol("S8-no-persisted-hash", c, f"cached hash {sorted(attrs)} kept out of the pickled state", site(stores[0]),
+                         f"{cls.name}.__hash__ returns the stored attribute {sorted(attrs)} (`{' '.join(src(stores[0]).split())[:70]}`) and the class pickles its whole __dict__: "
+                         "the hash of a str is salted per process, so an object unpickled in another process (resuming a solver, multiprocessing) equals a fresh one but hashes "
+                         "differently - `var in formula.free_variables()` and substitution-map lookups silently miss")
+    ctx.inventory["hash_classes"] = n_hash
+    ctx.inventory["cached_hash_classes"] = n_cached
+    if n_hash < 10:
+        raise Unrecognised("C17.S8", LANG, f"only {n_hash} classes with __hash__ found")
+    ctx.ok("S8-no-persisted-hash", LANG, "classes with a stored hash keep it out of their pickles", site(ctx.repo.module(LANG, "C17.S8").tree.body[0]), f"{n_hash} __hash__ methods, {n_cached} cached")
+
+
+def rule_s9(ctx):
+    """The CLI's JSON tree text is ASCII (json.dumps' default ensure_ascii): it is written through text streams whose encoding is the environment's (print to stdout,
+    open(..., 'w')), and read back as UTF-8.  With ensure_ascii=False a non-ASCII terminal is written in the stream's encoding and the file is not UTF-8 JSON any more."""
+    f = ctx.repo.func(CLI, "derivation_tree_to_json", "C17.S9")
+    c = f"{CLI}:derivation_tree_to_json"
+    dumps = [x for x in calls_in(f) if call_name(x) in ("json.dumps", "dumps")]
+    if len(dumps) != 1:
+        raise Unrecognised("C17.S9", c, "json.dumps call not found")
+    ea = next((k.value for k in dumps[0].keywords if k.arg == "ensure_ascii"), None)
+    if ea is None or (isinstance(ea, ast.Constant) and ea.value is True):
+        ctx.ok("S9-json-ascii", c, "JSON text is pure ASCII (independent of the output stream's encoding)", site(dumps[0]), "ensure_ascii default")
+    elif isinstance(ea, ast.Constant) and ea.value is False:
+        ctx.viol("S9-json-ascii", c, "JSON text is pure ASCII (independent of the output stream's encoding)", site(dumps[0]),
+                 "ensure_ascii=False lets non-ASCII terminals through verbatim, but `isla solve --tree` prints the text to stdout and `parse -o` opens the file in text mode with "
+                 "the locale's encoding: under a non-UTF-8 stream the bytes are not UTF-8 JSON (or UnicodeEncodeError), and the tree cannot be read back")
+    else:
+        raise Unrecognised("C17.S9", c, f"ensure_ascii={src(ea)[:30]} not constant")
+    g = ctx.repo.func("src/isla/derivation_tree.py", "DerivationTree.to_json", "C17.S9")
+    d2 = [x for x in calls_in(g) if call_name(x) in ("json.dumps", "dumps")]
+    bad = [x for x in d2 if any(k.arg == "ensure_ascii" and not (isinstance(k.value, ast.Constant) and k.value.value is True) for k in x.keywords)]
+    ctx.check(bool(d2) and not bad, "S9-json-ascii", "src/isla/derivation_tree.py:DerivationTree.to_json", "pickle/JSON state is pure ASCII", site(g), "to_json passes ensure_ascii other than True", "ensure_ascii default")
+
+
 def rule_s5(ctx, rule_prefix="S5", with_escape_char=True):
     """Sanitiser flow: text handed to z3.parse_smt2_string (byte-oriented) must be ASCII-escaped; the writer's escape character must itself be escaped."""
     n = 0
@@ -299,7 +364,7 @@ def rule_s5(ctx, rule_prefix="S5", with_escape_char=True):
     f = ctx.repo.func(Z3H, "smt_escape_non_ascii", "C17.S5")
     t = " ".join(src(f.body[-1]).split())
     ok = "if ord(char) < 128 else" in t and "\\\\u{{" in t.replace("'", '"') or ("ord(char) < 128" in t and ":x}" in t)
-    ctx.check(ok, f"{rule_prefix}-non-ascii-escaped", f"{Z3H}:smt_escape_non_ascii", "chars >= 128 -> \\u{hex}", site(f), f"escaper body: {t[:120]}", "every non-ASCII character escaped in hex")
+    ctx.shape(ok, f"{rule_prefix}-non-ascii-escaped", f"{Z3H}:smt_escape_non_ascii", "chars >= 128 -> \\u{hex}", site(f), f"escaper body: {t[:120]}", "every non-ASCII character escaped in hex")
     # the reader of as_string() undoes ALL unicode escapes
     g = ctx.repo.func(Z3H, "smt_string_val_to_string", "C17.S5")
     t = " ".join(src(g).split())
@@ -415,6 +480,8 @@ def _ancs(n):
 
 def run(ctx) -> str:
     ctx.guarded("S6", lambda: rule_s6(ctx))
+    ctx.guarded("S8", lambda: rule_s8(ctx))
+    ctx.guarded("S9", lambda: rule_s9(ctx))
     from . import c16
 
     # a new per-instance field of DerivationTree must be classified (identity / memo, stripped by the serialisers or not): shared with C16.O1
